@@ -28,7 +28,7 @@ import bacpypes.core as core
 from bacpypes.comm import bind
 from bacpypes.pdu import Address, PDU, LocalBroadcast
 from bacpypes.vlan import Node
-from bacpypes.app import Application
+from bacpypes.app import Application, ApplicationIOController
 from bacpypes.appservice import StateMachineAccessPoint, ApplicationServiceAccessPoint
 from bacpypes.netservice import NetworkServiceAccessPoint, NetworkServiceElement
 from bacpypes.object import register_object_type, AnalogValueObject, BinaryValueObject, WritableProperty, MultiStateValueObject
@@ -60,7 +60,7 @@ class WBV(CurrentPropertyListMixIn, BinaryValueObject):
     properties = [WritableProperty("presentValue", BinaryPV)]
 
 
-class DevApp(Application, WhoIsIAmServices, ReadWritePropertyServices, ReadWritePropertyMultipleServices,
+class DevApp(ApplicationIOController, WhoIsIAmServices, ReadWritePropertyServices, ReadWritePropertyMultipleServices,
              ChangeOfValueServices, DeviceCommunicationControlServices):
     pass
 
